@@ -36,7 +36,9 @@ impl AnonymousIngressEngine {
 
   pub fn deregister_pipe(&self, pipe_id: usize) {
     self.queue.deregister_pipe(pipe_id);
-    *self.local_cache.lock() = None;
+    // The local cache holds the remaining frames of a message that has already been taken
+    // off the queue whole and that the application is reading frame by frame. It must
+    // survive the detach of any connection - clearing it here truncated that message.
   }
 
   pub fn close(&self) {
